@@ -125,7 +125,7 @@ class C19(scen.WorldProp):
         for i in range(10 if tier == "quick" else 120):
             yield self.speed_before_pull_off(rng)
         # (v) the real server-mode start-up, with the answers to the join arriving at once or a millisecond later
-        for i in range(8 if tier == "quick" else 60):
+        for i in range(14 if tier == "quick" else 90):
             yield self.startup_case(rng)
         for i in range(12 if tier == "quick" else 100):
             yield self.server_cli_case(rng)
@@ -172,7 +172,15 @@ class C19(scen.WorldProp):
               "tower_id": rng.randint(100000000, 999999999),
               "on_join": scen.humans_on_join([], "Wheatley", list(range(1, 17))) + [method_msg(stage)],
               "sync_join": rng.random() < 0.5, "events": [call(t0, LOOK_TO)], "bot": None, "rhythm": None}
-        return {"k": "startup", "scenario": sc, "stage": stage, "N": N, "t0": t0, "id": rng.randint(1, 9)}
+        req = {"k": "startup", "scenario": sc, "stage": stage, "N": N, "t0": t0, "id": rng.randint(1, 9)}
+        if rng.random() < 0.4:
+            # spawned *by* the Look To (`--look-to-time`): no Look To message will come; what Ringing Room sends in
+            # answer to the join - the selected method included - is in force for that touch
+            t_lt = 1000.0 - rng.uniform(0.0, 1.5)
+            sc["events"] = []
+            sc["end"] = t_lt + 3 + 7 * I * (N + 1)
+            req.update(t0=t_lt, look_to_time=t_lt)
+        return req
 
     def corpus(self):
         # witness of the repaired exit race: Look To lands in the last 10 ms idle poll before the deadline
@@ -363,7 +371,8 @@ class C19(scen.WorldProp):
         _time.time, _time.sleep, wtower.sleep = s.time, s.sleep, s.sleep
         err = None
         try:
-            wmain.main(["server-mode", str(sc["tower_id"]), "--port", "5000", "--id", str(req["id"])])
+            wmain.main(["server-mode", str(sc["tower_id"]), "--port", "5000", "--id", str(req["id"])]
+                       + (["--look-to-time", repr(req["look_to_time"])] if req.get("look_to_time") is not None else []))
             err = "returned"
         except sim.Stop:
             pass
@@ -418,7 +427,8 @@ class C19(scen.WorldProp):
         if req["k"] == "server_cli":
             return "server-cli"
         if req["k"] == "startup":
-            return "startup:" + ("join-answered-at-once" if req["scenario"]["sync_join"] else "join-answered-1ms-later")
+            return ("startup:" + ("spawned-by-look-to:" if req.get("look_to_time") is not None else "")
+                    + ("join-answered-at-once" if req["scenario"]["sync_join"] else "join-answered-1ms-later"))
         if req["k"] == "sched":
             return "sched:" + req["pair"]
         plan = req["plan"]
